@@ -190,7 +190,7 @@ class Client:
         rparts = [self._mk_reward(p, (i,)) for i, p in enumerate(spec['rewards'])]
         reward = functools.partial(reward_fs.reward_function_registry['reduce_sum'], reward_functions=rparts)
         terminating = self._mk_term(spec['term'], ())
-        self.rparts, self.tfun = rparts, terminating
+        self.rparts, self.tfun, self.transition = rparts, terminating, transition
         area = area_of(spec['obs']['area'])
         okw = {k: v for k, v in spec['obs'].items() if k not in ('name', 'area')}
         if via_factory:
@@ -587,9 +587,9 @@ class Sim:
         self.ctx.fault('debug_flip')
 
     def adv_clear_caches(self):
-        reward_fs.dijkstra.cache_clear()
-        raytracing.cached_compute_rays.cache_clear()
-        raytracing.cached_compute_rays_fancy.cache_clear()
+        from gvsim.kernel import clear_caches
+
+        clear_caches()
         self.ctx.fault('clear_caches')
 
     def adv_cache_pressure(self, n, salt):
